@@ -325,6 +325,9 @@ SCEN = {
     'C08': ('^TestGovcC08', './tests/integration/query/simple/', {'/repo/tests/integration/query/simple/zz_c08_group_offset_test.go': f'{V}/harness/query/zz_c08_group_offset_test.go', '/repo/tests/integration/query/simple/zz_c08_aggregates_test.go': f'{V}/harness/query/zz_c08_aggregates_test.go'}, 6,
             'planner limit/offset on group members and the aggregate nodes (count, sum, min, max, average) through the integration test driver (go test -overlay)',
             'six fixed scenarios: offset without limit at top level and on group members; count/sum/min/max/average over integers and floats with a null and negative values, over all-negative values, and with order, limit, offset and filter arguments, each against the arithmetic over the listed values'),
+    'C20': ('^TestGovcC20', './event/', {'/repo/event/zz_c20_bus_test.go': f'{V}/harness/event/zz_c20_bus_test.go'}, 1,
+            'event.channelBus (handleChannel goroutine: subscribe / unsubscribe / publish commands) through the Bus API (go test -overlay)',
+            'for k = 1..4 subscribers of two event names and every subset of them that unsubscribes between two publications (30 cases): the remaining subscribers receive every later message, in publication order'),
 }
 if prop in SCEN:
     import re
